@@ -136,6 +136,10 @@ def run(ctx):
         try:
             card = cards.CardGen(rng, tag, nbody=nb, n_chains=(2, 3), final_j2=(0, 1, 1, 2) if nb == 3 else (0, 0, 1, 2),
                                  res_per_slot=(1, 2) if nb == 3 or i % 2 == 0 else (1, 1), models=MODELS5, decay_opts_prob=0.2).make()
+            # every fourth card: CP-violating chain couplings (decay_chain: {$all: {is_cp: True}}) and events of both charges
+            cp_card = i % 4 == 1
+            if cp_card:
+                card["config"]["decay_chain"] = {"$all": {"is_cp": True}}
             base = cards.load(card)
             amp0 = base.get_amplitude()
             p1 = cards.random_params(amp0, (ctx.seed, i))
@@ -150,9 +154,12 @@ def run(ctx):
         ps = cards.events(card, 40, rng)
         good = conditioned(card, ps)
         ctx.context = {"card": cards.short(card), "index": i}
-        f1, _ = cards.density(base, ps)
+        extra = {"charge_conjugation": rng.choice([1.0, -1.0], 40)} if cp_card else {}
+        kf_cp = " [is_cp chains, events of both charges]" if cp_card else ""
+        ctx.covered("cp_violating_chains", cp_card)
+        f1, _ = cards.density(base, ps, **extra)
         amp0.set_params(p2)
-        f2, _ = cards.density(base, ps)
+        f2, _ = cards.density(base, ps, **extra)
         amp0.set_params(p1)
         if not np.median(f1) > 1e-20:
             ctx.count("degenerate_zero_density")
@@ -169,7 +176,7 @@ def run(ctx):
                         ctx.count("skipped_param_names_differ:" + name)
                         return
                     amp.set_params(p1)
-                    data = cfg.data.cal_angle([np.ascontiguousarray(p) for p in ps])
+                    data = cfg.data.cal_angle([np.ascontiguousarray(p) for p in ps], **extra)
                     g1 = np.asarray(amp(data))
                     g1b = np.asarray(amp(data))  # second call: cached-function path of AbsPDF.__call__
                     amp.set_params(p2)
@@ -186,8 +193,9 @@ def run(ctx):
             worst_label, worst = max(((k, float(np.max(v[good])) if np.any(good) else 0.0) for k, v in devs.items()), key=lambda t: t[1])
             ctx.dev(monitor + " (|df|/tol)", worst, 1.0)
             ctx.check(monitor, worst <= 1.0, lambda: {"card": cards.short(card), "config": card["config"], "data_opts": opts, "param_key": [ctx.seed, i],
-                                                      "phase": worst_label, "worst_ratio": worst, "f_default": f1[:3], "f_strategy": g1[:3]},
-                      mechanism=monitor)
+                                                      "phase": worst_label, "worst_ratio": worst, "f_default": f1[:3], "f_strategy": g1[:3],
+                                                      "charges": None if not cp_card else extra["charge_conjugation"][:6]},
+                      mechanism=monitor + kf_cp)
             ctx.case(cards.card_digest_key(card) + (name,), nontrivial=spin)
 
         for name, opts in STRATEGIES.items():
